@@ -5,9 +5,11 @@ import RexModel.Driver.C15
 import RexModel.Driver.C11
 import RexModel.Driver.C19
 import RexModel.Driver.C20
+import RexModel.Driver.C14
+import RexModel.Driver.C16
 
 namespace Rex.Driver
 def allHandlers : List (String × Handler) :=
   [("ping", fun _ => pure (Lean.Json.mkObj [("pong", Lean.Json.bool true)]))] ++
-  C17.handlers ++ Async.handlers ++ C18.handlers ++ C15.handlers ++ C11.handlers ++ C19.handlers ++ C20.handlers
+  C17.handlers ++ Async.handlers ++ C18.handlers ++ C15.handlers ++ C11.handlers ++ C19.handlers ++ C20.handlers ++ C14.handlers ++ C16.handlers
 end Rex.Driver
